@@ -38,7 +38,7 @@ def float_only(low, t):
 
 def run(check):
     tier = check.tier
-    types = ['double'] if tier == 'quick' else ['double', 'float', 'long double']
+    types = ['double', 'float', 'long double']      # all three in every tier: a relation can be wrong in one instantiation only (literals, casts, defaulted Vector<>)
     check.checker_cmd = 'clang++ -ast-dump=json | phqv lower | phqv symex (REAL, two runs: inputs and rescaled inputs) -> z3 -T:60 qfnra-nlsat'
     check.assume('REAL: machine arithmetic treated as exact real arithmetic; the seven base-unit scale factors are arbitrary positive reals')
     check.assume('dimension set of a quantity type = RelatedDimensions<UnitType> of its Dimensional* base as extracted from the AST (zero vector for Dimensionless* bases, plain numbers, vectors/tensors of numbers); absolute temperature is treated by its stored SI value like every other quantity')
@@ -46,8 +46,9 @@ def run(check):
     check.notes.append('angle-valued relations (results of acos) are scale-invariance obligations of C11 and are not repeated here')
     tasks = []
     stats = {'ctor': 0, 'operator': 0, 'member': 0, 'free': 0, 'dims': 0}
+    loaded = dict(zip(types, pmap(lambda T_: Quant(check, types=(T_,), other_types=(), conv=False, hash_=False), types)))
     for T in types:
-        Q = Quant(check, types=(T,), other_types=(), conv=False, hash_=False)
+        Q = loaded[T]
         low = Q.low
         D = Dims(Q)
         tag = T.replace(' ', '_')
